@@ -118,7 +118,7 @@ def main(ctx, args):
     known = load_known("C05")
     if not extract(ctx):
         ctx.finish()
-    proved = prove(ctx, MODULES)
+    proved = prove(ctx, MODULES, drivers=["drv_c05", "drv_mir"])
     if proved and ctx.tier == "thorough":
         proved = leancheck(ctx, MODULES)
     if not build_harness(ctx):
@@ -143,6 +143,8 @@ def main(ctx, args):
             cs, _ = pc.gen_cases(ctx.seed, n, prof, 0, start=0)
             lo_cases += cs
     lo_res = run_c05(lo_cases) if lo_cases else {}
+    # the per-program proof obligation: `stateOkFn` (Model/MirState.lean) on every function of the MIR the compiler produced
+    static = pc.mir_static(allcases + lo_cases)
     failures, stats, nontriv, samples = [], collections.Counter(), set(), []
     layout_diffs, layout_samples, layout_nontriv = [], [], set()
 
@@ -199,6 +201,36 @@ def main(ctx, args):
         status, skel, recs, verdict, pub = lo_res[c["id"]]
         stats["layout_only_programs"] += 1
         account_layout(c, status, skel, pub)
+    # static state check of the MIR against the per-program trace verdicts
+    sstat, s_limits, s_contra = collections.Counter(), [], []
+    failed_ids = {c["id"] for c, _, _ in failures}
+    for c in allcases:
+        st = static.get(c["id"], {"status": "missing"})
+        if st["status"] != "ok":
+            sstat["not_dumped_" + st["status"]] += 1
+            continue
+        sstat["programs"] += 1
+        sstat["functions"] += st["fns"]
+        sstat["functions_pass"] += st["ok"]
+        sstat["programs_all_functions_pass"] += st["ok"] == st["fns"]
+        if not st["checked"]:
+            s_contra.append((c, "okSet is not closed under the check (okSetChecked = false)", st))
+        ran_ok = res[c["id"]][0] == "ok"
+        conform = ran_ok and c["id"] not in failed_ids
+        dsp_pass = "dsp" not in st["fail"]
+        if dsp_pass and ran_ok:
+            sstat["dsp_passes_and_vm_traces_conform" if conform else "dsp_passes_but_vm_traces_do_not_conform"] += 1
+            if not conform:
+                s_contra.append((c, "dsp passes the static check but the VM's recorded traces do not conform", st))
+        if st["fail"] and conform:
+            sstat["programs_with_a_failing_function_whose_traces_conform"] += 1
+            if len(s_limits) < 5:
+                s_limits.append({"src": c["src"], "failing_functions": st["fail"]})
+    for c in lo_cases:
+        st = static.get(c["id"], {"status": "missing"})
+        if st["status"] == "ok":
+            sstat["layout_only_stream_programs"] += 1
+            sstat["layout_only_stream_programs_with_a_failing_function"] += bool(st["fail"])
     kres = run_c05([{"id": k["id"], "src": k["src"], "inputs": k.get("inputs", []), "times": k.get("times", 8)} for k in known if "src" in k], nshards=1) if known else {}
     for k in known:
         if "src" not in k:
@@ -246,6 +278,13 @@ def main(ctx, args):
                 rep["src"], rep["sx"] = rep["shrunk"]["src"], rep["shrunk"]["sx"]
             ctx.violation(f"the state layout the Lean model of mirgen publishes for dsp differs from the compiler's on {len(group)} programs, {label} "
                           f"(compiler {skel}, model {pi.get('model')}); smallest:\n{rep['src']}", rep)
+    if s_contra and not failures:
+        s_contra.sort(key=lambda f: len(f[0]["src"]))
+        c, why, st = s_contra[0]
+        ctx.violation(f"static state check of the MIR: {why} ({len(s_contra)} programs): the MIR semantics (Model/Mir.lean), its dump or "
+                      f"bytecodegen disagree about this program; smallest:\n{c['src']}",
+                      {"src": c["src"], "inputs": c["inputs"], "times": c["times"], "why": "mir-static:" + why, "static": st,
+                       "correspondence": "C05_mir_state_ok_sound vs recorded VM traces", "case_id": c["id"]}, found_input=False)
     if not proved and not failures and not layout_diffs:
         ctx.violation("proof obligation broken: " + "; ".join(ctx._broken), {"stage": "prove", "theorems": ctx._broken,
                       "lake": getattr(ctx, "_lake_errors", "")}, found_input=False)
@@ -258,6 +297,11 @@ def main(ctx, args):
         "state_accesses_judged": stats["accesses_judged"],
         "layouts_nested": stats["layouts_nested"], "layouts_flat": stats["layouts_flat"],
         "failures": len(failures),
+        "mir_static_state_check": {
+            "rule": "stateOkFn (Model/MirState.lean; soundness C05_mir_state_ok_sound) evaluated by drv_mir on every function of the MIR the "
+                    "real compiler produced for every program of the run; `okSetChecked` must hold for the computed set; a program whose dsp "
+                    "passes must have conforming VM traces (else violation); a failing function with conforming traces is a limitation",
+            **dict(sstat), "limitations_samples": s_limits, "contradictions": len(s_contra)},
         "published_layout_model_vs_compiler": {
             "rule": "publishedSk (publishFn P dsp) of Model/Publish.lean, computed from the program's S-expression, equals get_dsp_state_skeleton of the real compiler (text equality of the skeleton); non-trivial = at least 2 cells",
             "compared": stats["layouts_compared"], "of_which_layout_only_stream_f3_f2": stats["layout_only_programs"],
